@@ -179,6 +179,11 @@ def run_schedule(chooser: Any, order: list[str], *, kinds: dict[str, str], tp: b
             await asyncio.sleep(delays[name])
             if kinds[name] == "reconnect":
                 await ecu.reconnect()
+            elif kinds[name] == "wait":
+                # a task waits for the ECU to come back (as the scanners do after a reset / power cycle) while the
+                # client believes it is in a non-default session; other tasks keep using the client
+                ecu.state.session = 3
+                await ecu.wait_for_ecu(2.0)
             elif kinds[name] == "raw":
                 # the same request handed over as bytes (what `primitive uds pdu`, the fuzzers and the scanners' raw
                 # probes do): same service id as the other callers, another identifier
@@ -322,6 +327,12 @@ def run(tier: str, seed: int) -> Report:
         plans.append((list(order), {"c1": "req", "c2": "req"}, False, 0, SCRIPTS))
         plans.append((list(order), {"c1": "req", "c2": "req"}, True, 0, ["imm", "pend", "late", "pendslow"]))
         plans.append((list(order), {"c1": "req", "c2": "reconnect"}, False, 1, ["imm", "late", "err"]))
+    # one task in wait_for_ecu() (client in a non-default session) while others use the client
+    for order in itertools.permutations(two):
+        plans.append((list(order), {"c1": "wait", "c2": "req"}, False, 0, ["imm", "pend", "late", "tmo"]))
+        plans.append((list(order), {"c1": "wait", "c2": "req"}, True, 1, ["imm", "late"]))
+    for order in (list(itertools.permutations(three)) if tier == "thorough" else [("c1", "c2", "c3"), ("c2", "c1", "c3")]):
+        plans.append((list(order), {"c1": "wait", "c2": "req", "c3": "raw"}, False, 0, ["imm", "pend", "tmo"]))
     # callers that hand their request over as bytes (send_raw), alone and mixed with typed callers
     for order in itertools.permutations(two):
         plans.append((list(order), {"c1": "raw", "c2": "raw"}, False, 0, ["imm", "pend", "late"]))
